@@ -25,8 +25,21 @@ pub fn n_parts(tier: &str) -> usize {
     }
 }
 
-pub fn generate(seed: u64, tier: &str) -> Manifest {
-    let (n22, n25, n26) = sizes(tier);
+/// `only`: generate the programs of one property only (used for mutation validation runs, where the whole
+/// workspace would otherwise be recompiled for every mutated compiler).
+pub fn generate(seed: u64, tier: &str, only: Option<&str>) -> Manifest {
+    let (mut n22, mut n25, mut n26) = sizes(tier);
+    if let Some(o) = only {
+        if o != "C22" {
+            n22 = 0;
+        }
+        if o != "C25" {
+            n25 = 0;
+        }
+        if o != "C26" {
+            n26 = 0;
+        }
+    }
     let mut m = Manifest { seed, tier: tier.to_string(), ..Default::default() };
     let base = Rng::new(seed ^ if tier == "thorough" { 0x7407 } else { 0 });
     let mut usage: BTreeMap<String, u64> = BTreeMap::new();
@@ -46,6 +59,16 @@ pub fn generate(seed: u64, tier: &str) -> Manifest {
     }
     m.gen_rejects = rejects;
     m.fns = fns;
+    // build-time optimisation: programs with an operator in a position that has been seen to defeat rustc's
+    // type inference get a crate of their own, so that the first cargo pass already attributes the failure
+    for g in &m.c22 {
+        for v in &g.variants {
+            let suspect = g.kinds.iter().any(|(name, kind)| kind.starts_with("multiset_delta") && v.analysis.colors.get(name).map(|c| c == "Push").unwrap_or(false));
+            if v.analysis.ok && suspect {
+                m.singles.push(v.prog_id.clone());
+            }
+        }
+    }
     m
 }
 
